@@ -4,6 +4,7 @@ K: the real _duration_to_nb_windows executed on bit-exact IEEE doubles (z3 Float
 D: the real split() with symbolic durations (exact rationals) and a recording tokenizer: which count goes where,
     which window divides, and the exact accept/reject partition."""
 import math
+import os
 
 import z3
 
@@ -151,8 +152,13 @@ def kernel_harness(L, role):
         else:
             goal = z3.BoolVal(False)
         res, m = e.refute(z3.Implies(in_range, goal))
+        second = None
+        if os.environ.get("SXV_TIER") == "thorough":
+            second = e.second_opinion(z3.Implies(in_range, goal))
+            if second in ("sat", "unsat") and second != res and res in ("sat", "unsat"):
+                return {"status": "unknown", "why": "z3 says %s, cvc5 says %s for %s: inconclusive" % (res, second, role), "cvc5": second}
         if res == "unsat":
-            return {"status": "ok", "outcome": outcome}
+            return {"status": "ok", "outcome": outcome, "cvc5": second}
         if res == "sat":
             return {"status": "cex", "failing": ["%s: window count outside the tolerance band of the statement" % outcome], "cex": mkfp(m, d, w, meta)}
         return {"status": "unknown", "why": "z3 gave no verdict on the FP lemma for %s within the time-out" % role}
